@@ -373,6 +373,73 @@ func runC19(t *testing.T, tier string) int {
 			stop()
 		}
 
+		// ---------------- envelope fidelity over SEQUENCES on one pusher: every field of
+		// every POST is that message's own, whatever the same connection sent before
+		// (optional fields present in one message and absent in the next)
+		feat := []c19Msg{
+			{data: []byte(`{"n":0}`)},
+			{data: []byte(`{"n":1}`), attrs: map[string]string{"k": "v"}},
+			{data: []byte(`{"n":2}`), key: "key-1"},
+			{data: []byte(`{"n":3}`), attrs: map[string]string{"é": "ü", "k2": ""}, key: "é😀"},
+			{data: []byte(`null`), attrs: map[string]string{"": "x"}},
+			{data: []byte(`"s"`), key: "key-2"},
+		}
+		var seqs [][]int
+		for a := range feat {
+			for b := range feat {
+				seqs = append(seqs, []int{a, b})
+				if tier == "thorough" {
+					for c := range feat {
+						seqs = append(seqs, []int{a, b, c})
+					}
+				}
+			}
+		}
+		for _, sq := range seqs {
+			var msgs []c19Msg
+			for _, i := range sq {
+				msgs = append(msgs, feat[i])
+			}
+			pubAfter := time.Now()
+			rt, ids, _, stop, err := env.start(msgs)
+			if err != nil {
+				t.Fatal(err)
+			}
+			pubBefore := time.Now()
+			envelopeRuns++
+			seen := map[string]bool{}
+			for step := 0; step < len(msgs)+1; step++ {
+				open := rt.openList()
+				if len(open) == 0 {
+					break
+				}
+				for _, p := range open {
+					var b pushBody
+					json.Unmarshal(p.body, &b)
+					idx := -1
+					for i, id := range ids {
+						if id == b.Message.MessageID {
+							idx = i
+						}
+					}
+					if idx < 0 {
+						sink.add(report.Viol{Property: "C19", Check: "C19/envelope-sequences", Rule: "envelope", Text: fmt.Sprintf("POST carries messageId %q which Publish did not return", b.Message.MessageID), Trace: []string{fmt.Sprint(sq)}})
+					} else {
+						seen[ids[idx]] = true
+						if e := checkEnvelope(p, msgs[idx], ids[idx], 1, pubAfter, pubBefore); e != "" {
+							sink.add(report.Viol{Property: "C19", Check: "C19/envelope-sequences", Rule: "envelope", Text: fmt.Sprintf("message %d of the sequence %v pushed on one connection: %s", idx, sq, e), Trace: []string{fmt.Sprint(sq)}})
+						}
+					}
+					p.answer <- postAnswer{status: 204}
+				}
+				synctest.Wait()
+			}
+			if len(seen) != len(msgs) {
+				sink.add(report.Viol{Property: "C19", Check: "C19/envelope-sequences", Rule: "not-pushed", Text: fmt.Sprintf("%d of %d messages of the sequence %v were pushed", len(seen), len(msgs), sq), Trace: []string{fmt.Sprint(sq)}})
+			}
+			stop()
+		}
+
 		// ---------------- (ii) pending requests answered in every order
 		nMsgs, maxSteps := 5, 6
 		if tier == "thorough" {
